@@ -52,14 +52,42 @@ pub struct Imp {
     pub dc: DcHeap,
 }
 
+/// Output in pieces of chosen sizes (selected by the current `sel`): a short head, then pieces around and far beyond
+/// typical internal buffer sizes, then a short tail. `None`: the ordinary output is wanted.
+fn sized_pieces(f: &mut std::fmt::Formatter<'_>, who: &str) -> Option<std::fmt::Result> {
+    let sizes: &[usize] = match cur_sel() % 4 {
+        1 => &[1, 2, 3, 5, 8, 13],
+        2 => &[300],
+        3 => &[127, 128, 129, 4096],
+        _ => return None,
+    };
+    Some((|| {
+        f.write_str(who)?;
+        f.write_str("[")?;
+        for (k, n) in sizes.iter().enumerate() {
+            // multi-byte characters, so that a piece cut at a byte count is visible as well
+            let piece: String = "\u{e4}\u{f6}x".chars().cycle().skip(k).take(*n).collect();
+            f.write_str(&piece)?;
+            f.write_str("|")?;
+        }
+        f.write_str("]end")
+    })())
+}
+
 impl std::fmt::Debug for Imp {
     fn fmt(&self, f: &mut std::fmt::Formatter<'_>) -> std::fmt::Result {
+        if let Some(r) = sized_pieces(f, "dbg") {
+            return r;
+        }
         f.debug_struct("Imp").field("id", &self.id).field("acc", &self.acc).field("words", &self.words).finish()
     }
 }
 
 impl std::fmt::Display for Imp {
     fn fmt(&self, f: &mut std::fmt::Formatter<'_>) -> std::fmt::Result {
+        if let Some(r) = sized_pieces(f, "dsp") {
+            return r;
+        }
         // honours width / fill / alignment / precision through `pad`
         f.pad(&format!("imp-{}-{}", self.id, self.acc))
     }
